@@ -328,15 +328,19 @@ func (sr *StatusReport) UnmarshalCbor(r io.Reader) error {
 		return fmt.Errorf("Expected array of length 4 or 6, got %d", n)
 	}
 
-	if n, err := cboring.ReadArrayLength(r); err != nil {
+	// The announced amount of items comes from the wire; it must not size an allocation. Items are appended as
+	// they are read, so memory only grows with data that has actually arrived.
+	n, err := cboring.ReadArrayLength(r)
+	if err != nil {
 		return err
-	} else {
-		sr.StatusInformation = make([]BundleStatusItem, int(n))
 	}
-	for i := 0; i < len(sr.StatusInformation); i++ {
-		if err := cboring.Unmarshal(&sr.StatusInformation[i], r); err != nil {
+	sr.StatusInformation = make([]BundleStatusItem, 0)
+	for i := uint64(0); i < n; i++ {
+		var bsi BundleStatusItem
+		if err := cboring.Unmarshal(&bsi, r); err != nil {
 			return fmt.Errorf("Unmarshalling BundleStatusItem failed: %v", err)
 		}
+		sr.StatusInformation = append(sr.StatusInformation, bsi)
 	}
 
 	if n, err := cboring.ReadUInt(r); err != nil {
